@@ -21,7 +21,7 @@ type c12 struct{}
 func (c12) ID() string    { return "C12" }
 func (c12) Level() string { return "exploration" }
 func (c12) Rule() string {
-	return "10 path-bearing attribute kinds (build context, additional context, env_file, label_file, bind source in short and long syntax, secret file, config file, develop watch path, bind device of a local volume) x 17 path shapes (./x, x/y, ../x, ., /abs, ~/x, ~, C:\\x, \\\\srv\\share, https://, git@, docker-image://, ssh://) x 9 origins (main, override, include depth 1, include depth 2, extended base in another directory, extended base used from an included file, extended base / included file in a sibling directory whose name starts with the project directory's name) x 3 working-directory shapes, and again with the service and resources named with an x- prefix, with resolution on (and off for main/override); expected value from the anchoring reference (Appendix A.5); references recognised by one of three registered remote loaders (each position; directly and nested below a file extended from another directory); plus the corpus documents with `./p` placed in every non-path string position (nothing may be anchored), and idempotence (render, reload, compare). distinct = distinct (attribute, shape, origin) outcomes"
+	return "10 path-bearing attribute kinds (build context, additional context, env_file, label_file, bind source in short and long syntax, secret file, config file, develop watch path, bind device of a local volume) x 17 path shapes (./x, x/y, ../x, ., /abs, ~/x, ~, C:\\x, \\\\srv\\share, https://, git@, docker-image://, ssh://) x 12 origins (main, main given as content under a relative name, base and extending service in one file - in the main file and in an included file -, override, include depth 1, include depth 2, extended base in another directory, extended base used from an included file, extended base / included file in a sibling directory whose name starts with the project directory's name) x 3 working-directory shapes, and again with the service and resources named with an x- prefix, with resolution on (and off for main/override); expected value from the anchoring reference (Appendix A.5); references recognised by one of three registered remote loaders (each position; directly and nested below a file extended from another directory); plus the corpus documents with `./p` placed in every non-path string position (nothing may be anchored), and idempotence (render, reload, compare). distinct = distinct (attribute, shape, origin) outcomes"
 }
 func (c12) Assumptions() []string {
 	return []string{
@@ -97,7 +97,7 @@ var c12nonPath = []string{"image", "command", "entrypoint", "working_dir", "user
 func (c12) Run(c *core.Ctx) {
 	home, _ := os.UserHomeDir()
 	attrs := c12attrs()
-	origins := []string{"main", "override", "include1", "include2", "extends-samefile", "extends-samefile-in-include", "extends-otherdir", "extends-in-include", "extends-shared", "extends-prefix-sibling", "include-prefix-sibling"}
+	origins := []string{"main", "main-content-relname", "override", "include1", "include2", "extends-samefile", "extends-samefile-in-include", "extends-otherdir", "extends-in-include", "extends-shared", "extends-prefix-sibling", "include-prefix-sibling"}
 	wds := []string{"proj", "proj dir", "nested/deep/proj"}
 	for _, a := range attrs {
 		for _, sh := range c12shapes {
@@ -262,7 +262,8 @@ func c12case(id string, a c12attr, sh c12shape, origin, wd string, resolve bool,
 	main := []string{wd + "/compose.yaml"}
 	originDir := wd // directory (relative to root) the attribute is anchored on
 	switch origin {
-	case "main":
+	case "main", "main-content-relname":
+		// (relname: the caller holds the content and names the file relative to the working directory)
 		files[wd+"/compose.yaml"] = svcDoc
 	case "override":
 		files[wd+"/compose.yaml"] = "services:\n  other: {image: o}\n"
@@ -339,7 +340,7 @@ func c12case(id string, a c12attr, sh c12shape, origin, wd string, resolve bool,
 			files[k] = r.Replace(v)
 		}
 	}
-	s := &Scn{Files: files, Main: main, WD: wd}
+	s := &Scn{Files: files, Main: main, WD: wd, InMem: origin == "main-content-relname", RelNames: origin == "main-content-relname"}
 	if !resolve {
 		s.Opts = []func(*loader.Options){func(o *loader.Options) { o.ResolvePaths = false }}
 	}
